@@ -41,7 +41,7 @@ def draw_rule(ctx, facts):
                       "the inline shuffle must swap position %s with a position drawn uniformly from [%s, m) (Uniform::new(%s, m)); found swap(%s)" % (J, J, J, [nf.nf(a, True)[:40] for a in sw[0]["args"]] if sw else "none"))
     for (w, f, idx) in writes_to_self(fn, "hsketch"):
         v = nf.nf(w["r"], True, res=R)
-        if re.match(r"^\(num::NumCast::from\(%s\)\.unwrap\(\) \+ rand_distr::Uniform::<X>::new\(num::zero\(\), num::one\(\)\)\.unwrap\(\)\.sample\(\w+\)\)$" % re.escape(J), v) and nf.nf(idx[0], True) == "self.p[%s]" % J:
+        if re.match(r"^\(num::NumCast::from\(%s\)\.unwrap\(\) \+ rand_distr::Uniform::<X>::new\(num::zero\(\), num::one\(\)\)\.unwrap\(\)\.sample\(\w+\)\)$" % re.escape(J), v) and nf.nf(idx[0], True, res=R) == "self.p[%s]" % J:
             ctx.ok("DRAW", fid, "value written to hsketch[p[%s]] is Uniform[0,1) + %s" % (J, J), hirq.loc(w))
         else:
             ctx.violation("DRAW", fid, "draw value", hirq.loc(w), "the value offered to position p[%s] must be a fresh Uniform[0,1) sample plus %s; found `%s` at index `%s`" % (J, J, v[:120], nf.nf(idx[0], True)))
